@@ -97,6 +97,15 @@ static void c07_run(int shard, int nshards, const hz::Args& a, hz::Result& r) {
   const bool th = a.thorough();
   std::vector<long long> FSV = {0, 1, 9, 10, 99, 101, 999999, 1000001, 500000000000000LL, 999999999999999LL, 123456789012345LL, 100000000000000LL};
   if (th) for (long long p = 100; p < 1000000000000000LL; p *= 10) { FSV.push_back(p - 1); FSV.push_back(p + 1); }
+  // fractions with exactly k significant digits, k = 1..15: a lone 1 in digit k, k nines, and a ramp cut after k digits
+  for (int k = 1; k <= 15; ++k) {
+    if (!th && (k == 2 || k == 4 || k == 5 || k == 7 || k == 8 || k == 13)) continue;
+    long long unit = 1;
+    for (int i = k; i < 15; ++i) unit *= 10;
+    FSV.push_back(unit);
+    FSV.push_back(1000000000000000LL - unit);
+    FSV.push_back(123456789012345LL / unit * unit + (123456789012345LL / unit % 10 == 0 ? unit : 0));
+  }
   // instants whose civil years have 1..12 digits of either sign + the ends of the range
   std::vector<long long> years_t;
   const long long ys[] = {1, 9, 10, 99, 100, 999, 1000, 1969, 1970, 9999, 10000, 99999, 1234567, 99999999, 1000000000LL, 99999999999LL, 292277026596LL, 0, -1, -9, -10, -99, -100, -999, -1000, -9999, -10000, -1234567, -99999999999LL, -292277022657LL};
